@@ -108,6 +108,30 @@ def main():
                                    ", ".join(caught) if caught else ("**not caught**" if runs else "not run"),
                                    ", ".join(conc) if conc else ("—" if caught else "")))
     w("")
+    w("### 11.4 Trusted base as built\n")
+    w("* **Kernel**: `coqc` 8.16.1; every property file is a full `.vo` build (`make`, never `-vos`); the thorough tier re-checks "
+      "`Props/Cxx.vo` and everything it depends on with `coqchk -o` (reports: no axioms, no type-in-type, no unsafe fixpoints, no "
+      "assumed positivity). `vm_compute` is used for computed checks over Gen tables, for `_refuted` witnesses / non-vacuity Examples "
+      "and to run the models in the correspondence files; no `native_compute`. No `Axiom`/`Parameter`/`Admitted`/`admit` anywhere "
+      "(scanned on every run over the dependency closure of the property; whole development: clean). Libraries imported: Coq stdlib "
+      "`List Arith NArith ZArith Bool Lia String Ascii` only; `Print Assumptions` under every property theorem: Closed under the global context.")
+    w("* **Extractors** (`tools/gen/*.py`, Python `ast`, fail closed) and the **correspondence harnesses / oracles** (`tools/harness/*.py`, "
+      "`tools/lib/*.py`): trusted to read the source / drive the implementation correctly; differential testing bounded by generator "
+      "quality (the evidence prints the input distribution). No extraction to OCaml is used.")
+    w("* **Modelled, not verified** (assumptions each check states in its evidence file):\n")
+    import ast
+    for i in range(1, 21):
+        pid = "C%02d" % i
+        tree = ast.parse(open("tools/harness/%s.py" % pid, encoding="utf-8").read())
+        assum = []
+        for node in tree.body:
+            if isinstance(node, ast.Assign) and any(isinstance(t, ast.Name) and t.id == "ASSUMPTIONS" for t in node.targets):
+                try:
+                    assum = ast.literal_eval(node.value)
+                except Exception:
+                    assum = ["(computed in the harness; see evidence/%s.json)" % pid]
+        w("  - **%s**: %s" % (pid, "; ".join(a.strip().rstrip(".") for a in assum) or "—"))
+    w("")
     text = "\n".join(L)
     s = open("DESIGN.md", encoding="utf-8").read()
     b, e = "<!-- AS-BUILT BEGIN -->", "<!-- AS-BUILT END -->"
